@@ -49,9 +49,19 @@ if TIME == "duration":
              Duration(1, "min")]
 
 
+_BIG = 2 ** 53
+
+
 def _time(t):
     if TIME == "int":
         return t
+    if TIME == "bigint":
+        # int clock beyond 2**53, where neighbouring ints are no longer distinct doubles: CONCRETE ints through an explicit
+        # fork (a symbolic int converted with float() would be an exact real)
+        for k in range(TMAX + 1):
+            if t == k:
+                return _BIG + k
+        return _BIG
     if TIME == "float":
         return t / 2          # symbolic real, halves included
     return _GRID[t]
